@@ -925,7 +925,10 @@ func (s *State) evalForInteger(fe *ast.ForExpression, start *int64, end int64, n
 	newBody = fe.Body
 	if name != "" && !s.NoReg {
 		var ok bool
-		register, newBody, ok = setupRegister(s.env, name, int64(startValue), fe.Body)
+		env := s.env
+		register, newBody, ok = setupRegister(env, name, int64(startValue), fe.Body)
+		// Release on every way out of the loop (break, return, error, panic), not only normal completion.
+		defer env.ReleaseRegister(register)
 		if !ok {
 			return s.Errorf("for loop register %s shouldn't be modified inside the loop", name)
 		}
@@ -957,9 +960,6 @@ func (s *State) evalForInteger(fe *ast.ForExpression, start *int64, end int64, n
 		default:
 			lastEval = nextEval
 		}
-	}
-	if ptr != nil {
-		s.env.ReleaseRegister(register)
 	}
 	return lastEval
 }
